@@ -42,3 +42,14 @@ Corollary src_setup_ts_rates_eq J1 J2 ls1 li1 ls2 li2 n dt :
   src_ts_rates n (src_ts_tabulate J1 J2 ls1 li1 ls2 li2 n) (axes_grid ls1 li1 n) (axes_grid ls2 li2 n) dt
   = setup_ts_rates J1 J2 ls1 li1 ls2 li2 n dt.
 Proof. rewrite src_ts_rates_eq, src_ts_tabulate_eq. reflexivity. Qed.
+
+(* ---- the setup-level wrappers (SPDC::hom_two_source_rate_series, hom_two_source_visibilities for spdc1 == spdc2) *)
+Theorem src_setup_ts_rates_self_eq J ls li n dt : src_setup_ts_rates_self J ls li n dt = setup_ts_rates J J ls li ls li n dt.
+Proof. apply src_setup_ts_rates_eq. Qed.
+
+Theorem src_ts_visibilities_identical_eq J ls li n :
+  src_ts_visibilities_identical J ls li n = setup_ts_visibilities_identical J ls li n.
+Proof.
+  unfold src_ts_visibilities_identical, setup_ts_visibilities_identical. rewrite src_setup_ts_rates_eq.
+  destruct (setup_ts_rates J J ls li ls li n 0) as [[ss ii] si]. reflexivity.
+Qed.
